@@ -6,6 +6,9 @@ TECH = "deterministic simulation with fault injection"
 NOTE_COMMON = ("Trusted base: the go/ast instrumenter (tools/instrument) and the sim packages (sim/simrt, simsync, simfs, simclock, simexec, simwire) reproduce the semantics of the constructs they replace; "
                "the oracle/reference model written in sim/engine; Go toolchain go1.26.8. Seeded search: a clean batch is evidence, not proof. ")
 CHECKS = {
+ "C14": dict(level="exploration", design="5.14",
+   text="Full-server simulation over the wire with every goroutine the server starts (one per didOpen/didChange, one per initialized/didChangeConfiguration) as a simulator task, preempted at every lock, sync.Map operation, disk/clock/exec call and client call under 7 schedule policies, with the client answering workspace/configuration immediately, late, with an error, with [] or never, hledger found or not, and optional transport close. Invariants: no panic, no deadlock (cooperative locks model Go's writer preference), no livelock within the step budget. A second binary built with -race runs the same seeds with happens-before-invisible hand-offs, so two server goroutines are ordered for the detector only by the program's own synchronisation; reports are re-run alone, minimised and replayed by choice list. Oracle on sampled responses: equality with a FRESH sequential reference server in the same client-visible state (or, while analysis of the requesting state is still pending, with the cold or the lagging reference), and no marker of a superseded version of the requesting document.",
+   note="Without a workspace the disk is frozen (no didSave) because the server then learns about other files only on re-analysis. Settings payloads are well-typed and equal up to cli.path/timeout so the effective settings are unambiguous (ordering of configuration replies is C19). Plain memory races between yield points are found only by the -race pass."),
  "C01": dict(level="exploration", design="5.1",
    text="Full-server simulation over the wire: seeded histories of 5..40 client operations (didOpen / didChange with 1..4 content changes of every shape the property names / didClose / re-open / didSave, feature requests) on 1..3 URIs, text profile with ASCII, BMP and non-BMP characters, LF and CRLF, empty documents, with the server's background tasks preempted anywhere and inbound bytes chunked arbitrarily. After EVERY notification the server's copy (read through a debug request handled on the dispatcher goroutine, after real JSON decoding) must equal an independently written UTF-16 reference client buffer; every response on a marker-carrying document is scanned for markers of superseded versions. Histories against a reference model, with the schedule owned by the simulator, are what this property quantifies over.",
    note="One genuine defect is recorded as an open known finding (explicit empty range 0:0-0:0 taken for a full replacement); its explain predicate recomputes the server's text under exactly that misreading, any other mismatch is a violation. Without a workspace, markers of OTHER documents (read from disk by design) are not judged."),
